@@ -7,6 +7,8 @@
 //   mode 0 (sequential): the members of a team run one after another in an order derived from `orderseed`
 //                        (a legal schedule of the real program: the regions contain no barriers or other
 //                        synchronisation, so any serialisation of the members is an admissible execution)
+//   cap > 0:             a team never has more than `cap` members even when more were requested (thread limit, nesting,
+//                        dynamic adjustment: the OpenMP specification lets the runtime deliver fewer threads than requested)
 //   mode 1 (threads):    members are real pthreads created here (under -fsanitize=thread every
 //                        happens-before edge is visible to ThreadSanitizer; no uninstrumented runtime)
 #include <pthread.h>
@@ -18,6 +20,7 @@
 static int g_nthreads = 4;
 static int g_mode = 0;
 static uint64_t g_orderseed = 0;
+static int g_cap = 0; // > 0: deliver at most this many members per team (OpenMP may always deliver fewer threads than requested)
 static uint64_t g_regions = 0, g_multi_regions = 0, g_max_team = 0;
 static thread_local int tl_num = 0;
 static thread_local int tl_team = 1;
@@ -49,6 +52,7 @@ void GOMP_parallel(void (*fn)(void *), void *data, unsigned num_threads, unsigne
 {
     int team = num_threads ? (int)num_threads : g_nthreads;
     if (team < 1) team = 1;
+    if (g_cap > 0 && team > g_cap) team = g_cap;
     if (tl_team > 1) team = 1; // nested region: serialised (OpenMP default, nesting disabled)
     g_regions++;
     if (team > 1) g_multi_regions++;
@@ -76,6 +80,7 @@ void GOMP_parallel(void (*fn)(void *), void *data, unsigned num_threads, unsigne
 
 // harness control
 void pbt_shim_config(int mode, uint64_t orderseed) { g_mode = mode; g_orderseed = orderseed; }
+void pbt_shim_cap(int cap) { g_cap = cap; }
 void pbt_shim_stats(uint64_t *regions, uint64_t *multi, uint64_t *maxteam, int reset)
 {
     if (regions) *regions = g_regions; if (multi) *multi = g_multi_regions; if (maxteam) *maxteam = g_max_team;
